@@ -90,7 +90,9 @@ def quantile(a, q, axis=0, newaxis=None, out=None, overwrite_input=False):
     res = percentile(a, [qi*100 for qi in q], axis=axis, newaxis=newaxis, out=out, overwrite_input=overwrite_input)
 
     # change the percentile axis into quantile axis
+    # (addressed by name: the new axis is the first one, whatever `axis` was; assigned, not divided in
+    # place: the other axes of the result may be the operand's own Axis objects)
     if not np.isscalar(q):
-        res.axes[axis].values /= 100.
+        res.axes[newaxis] = np.asarray(q, dtype=float)
 
     return res
